@@ -119,17 +119,27 @@ def indexOf? (l : List Nat) (x : Nat) : Option Nat :=
     | y :: ys, i => if y == x then some i else go ys (i + 1)
   go l 0
 
-partial def hintOf (cfg : KillCfg) (touched : List Nat) (v : View) : Nat :=
+/-- position of the first touched path that is `p` or lies below it -/
+def pathIdx (tp : List String) (p : String) : Nat :=
+  let rec go : List String → Nat → Nat
+    | [], _ => 1000000
+    | q :: qs, i => if q == p || q.startsWith (p ++ "/") then i else go qs (i + 1)
+  go tp 0
+
+partial def hintOf (cfg : KillCfg) (touched : List Nat) (tp : List String) (v : View) : Nat :=
   -- (a cgroup that is descended into on the tick it is ranked can be attempted itself on a later tick of the same kill cycle,
-  -- when its children are gone by the time the serialised stack is resumed: its own position in the trace counts too)
-  let own := (indexOf? touched v.id).getD 1000000
-  if descends cfg v then (v.children.map (hintOf cfg touched)).foldl min own
+  -- when its children are gone by the time the serialised stack is resumed - its own position in the trace counts too - or be
+  -- descended into then, into children that did not exist (or were other incarnations) when it was ranked: whatever the trace
+  -- touches at or below its path counts, `tp` = the paths of `touched`)
+  let own := min ((indexOf? touched v.id).getD 1000000)
+    (if mayRecurse cfg v then pathIdx tp v.info.path else 1000000)
+  if descends cfg v then (v.children.map (hintOf cfg touched tp)).foldl min own
   else own
 
-def rankHint (cfg : KillCfg) (touched : List Nat) (rev : Bool) (l : List View) : List View :=
+def rankHint (cfg : KillCfg) (touched : List Nat) (tp : List String) (rev : Bool) (l : List View) : List View :=
   let el := l.filter (·.info.eligible)
   let el := if rev then el.reverse else el
-  let byHint := sortBy (fun a b => hintOf cfg touched a ≤ hintOf cfg touched b) el
+  let byHint := sortBy (fun a b => hintOf cfg touched tp a ≤ hintOf cfg touched tp b) el
   sortBy rkGe byHint
 
 def sortedDesc : List View → Bool
@@ -736,7 +746,7 @@ def handle (j : Json) : Json := Id.run do
         if mode ≥ 4 then (silent ++ touchedOf impls i ++ goneIds i).eraseDups
         else if mode ≥ 2 then (touchedOf impls i ++ goneIds i).eraseDups else touchedOf impls i
       { top := top, roots := roots, freshDl := timeoutNs.map fun t => im.now0 - pre + t,
-        rank := rankHint kcfg hint rev }
+        rank := rankHint kcfg hint (hint.map fun cid => ((trees.flatten.find? (fun (m : Meta) => m.id == cid)).map (·.path)).getD "\x00") rev }
     let ok := (tins0.zip tins).all fun ((_, views, roots), ti) =>
       rankOKb ti.rank roots && views.all (fun v => rankOKb ti.rank v.children)
     (runHistory hcfg none none tins env, ok)
